@@ -7,6 +7,11 @@ BASELINE = ("cd /repo && (cargo nextest run --workspace --no-fail-fast --tool-co
 
 # id -> (level, technique, level text, note, design ref)
 CHECKS = {
+ "C13": ("exploration",
+         "property-based round trip over run-time type descriptions (proptest) + exhaustive small trees; oracle = one well-formed document and equality after a run-time-schema DeserializeSeed",
+         "A fixed family of all trees of depth <= 2 (thorough 3) with <= 2 children per node over 9 leaf kinds x 11 option vectors, plus random (type, value) pairs to depth 5 under random option vectors: every serde data-model shape (options, sequences, tuples, tuple structs, newtype structs, maps with scalar and composite keys, structs, the four enum variant kinds) in every parent position; the emitted text must be exactly one document and deserialize back to the same value through a seed that calls the same serde methods a derived type would call (self-checked against derived types). Exploration over the enumerated family and samples.",
+         "four open findings exclude: empty collections under empty_as_braces=false, composite keys with block bodies / under non-default indentation, composite keys mistaken for the explicit-empty-key special case, and indent_step=1 nesting; Option<T> only for T without a null-like encoding",
+         "DESIGN.md section 3 C13"),
  "C08": ("exploration",
          "parameter-grid enumeration of attack families + proptest documents; oracle = independent usage/replay model for acceptance, counting visitor for delivered nodes, counting global allocator for peak heap",
          "Whole parameter grid of alias bombs, alias chains, aliases inside anchored containers, nested anchors (flow/block), wide merges and long complex keys x 9 limit settings (defaults; node / total-replay / per-anchor limits at usage and usage-1; replay stack depth 0/1), plus generated documents: delivered nodes <= min(node, event limit)+2, accepted iff the model is within all limits (matching error category otherwise), peak heap within 64 KiB + 16 x (input + 96 B x raw events) + 2 x 96 B x replayed events, nested-anchor scaling <= 4x. Exploration over the grid and samples; the constants of the memory bound are design choices.",
